@@ -367,7 +367,7 @@ func gen(r *h.Rand, tier string, emit func([]string)) {
 	g := &gctx{r: r, emit: emit, tier: tier}
 	scale := 1
 	if tier == "thorough" {
-		scale = 25
+		scale = 30
 	}
 
 	// zigzag: boundaries and random
@@ -382,7 +382,7 @@ func gen(r *h.Rand, tier string, emit func([]string)) {
 	for _, in := range g.s8bInputs() {
 		g.add("s8b " + u64s(in))
 	}
-	for i := 0; i < 2500*scale; i++ {
+	for i := 0; i < 2000*scale; i++ {
 		g.add("s8b " + u64s(g.randU64s(h.Pick(r, []int{8, 20, 60, 60, 61, 64}))))
 	}
 
@@ -400,7 +400,7 @@ func gen(r *h.Rand, tier string, emit func([]string)) {
 		g.add("c i " + u64s(dn))
 		g.add("c u " + u64s(ps))
 	}
-	for i := 0; i < 2500*scale; i++ {
+	for i := 0; i < 1500*scale; i++ {
 		g.add("c i " + u64s(g.intSeq()))
 		g.add("c u " + u64s(g.intSeq()))
 		g.add("c t " + u64s(g.timeSeq()))
@@ -436,7 +436,7 @@ func gen(r *h.Rand, tier string, emit func([]string)) {
 	g.add("blk i - -")
 	g.add("blk f - -")
 	g.add("blk s - -")
-	for i := 0; i < 2000*scale; i++ {
+	for i := 0; i < 1200*scale; i++ {
 		kind := "iufbs"[r.Intn(5)]
 		ts := g.timeSeq()
 		if r.Chance(0.1) && len(ts) == 0 {
